@@ -3,7 +3,7 @@ import ast
 
 import z3
 
-from . import strops
+from . import api, strops
 from .state import ExcInfo, Place
 from .symex import Entity, cond_fingerprint, normal
 from .types import snth, sunit
@@ -160,8 +160,40 @@ class StmtMixin:
                 return pl
         return self.eval(st, value)
 
+    def dict_setdefault_place(self, st, e):
+        """obj.__dict__.setdefault('attr', default): the attribute `attr` of obj, created with the
+        default when absent (modelled as an optional field).  -> [(state, Place)] or None"""
+        if not (isinstance(e, ast.Call) and isinstance(e.func, ast.Attribute) and e.func.attr == 'setdefault'
+                and isinstance(e.func.value, ast.Attribute) and e.func.value.attr == '__dict__'
+                and len(e.args) == 2 and isinstance(e.args[0], ast.Constant) and isinstance(e.args[0].value, str)):
+            return None
+        attr = e.args[0].value
+        res = self.eval(st, e.func.value.value)
+        if len(res) != 1 or not normal(res[0][0]):
+            return None
+        s2, obj = res[0]
+        if not (isinstance(obj, SV) and isinstance(obj.ty, TRef)):
+            return None
+        dcls, fty = self.classes.field(obj.ty.cls, attr)
+        m = api.MODELS.get(dcls) if dcls else None
+        if m is None or attr not in m.optional:
+            return None
+        flag = self.read_field(s2, obj, obj.ty.cls, m.optional[attr])
+        outs = []
+        a, b = self.fork(s2, flag.t, None, 'has-' + attr)
+        if a is not None:
+            outs.append((a, Place(('field', obj.t, (dcls, attr)))))
+        if b is not None:
+            for s3, dv in self.eval(b, e.args[1]):
+                self.write_field(s3, obj, obj.ty.cls, attr, self.need_value(dv), e)
+                outs.append((s3, Place(('field', obj.t, (dcls, attr)))))
+        return outs
+
     def try_place(self, st, e):
         """If e denotes an owned-container location, return [(st, Place)]."""
+        sd = self.dict_setdefault_place(st, e)
+        if sd is not None:
+            return sd
         try:
             if isinstance(e, ast.Name) and e.id in st.env:
                 cur = st.env[e.id]
@@ -567,6 +599,9 @@ class StmtMixin:
         out = []
         for t in types:
             ent = self.eval(self.scratch_state(), t)[0][1]
+            if isinstance(ent, Entity) and ent.kind == 'ext' and ('ext:' + ent.data) in api.MODELS:
+                out.append('ext:' + ent.data)
+                continue
             if not (isinstance(ent, Entity) and ent.kind == 'class'):
                 raise OutsideSubset('except clause type')
             out.append(self.classes.canon(ent.data))
